@@ -560,7 +560,10 @@ class Interp:
             if ck.startswith(("IntToFloat",)):
                 if is_int(v):
                     return ("f", float(v[1]))
-                return ("app", "as_f64", (v,))
+                t_ = ("app", "as_f64", (v,))
+                if "from" in r and self.prog.ty(r["from"]).get("k") == "uint":
+                    NONNEG_TERMS.add(t_)        # the float image of an unsigned integer is never negative
+                return t_
             if ck.startswith(("FloatToInt", "FloatToFloat")):
                 return v if v[0] == "f" else ("app", ck, (v,))
             if ck.startswith("Coerce:ClosureFnPointer") or ck.startswith("Coerce:ReifyFnPointer"):
@@ -1122,6 +1125,66 @@ class Interp:
         return self.explore(st)
 
 
+NONNEG_TERMS = set()
+
+
+def sign_of(t, depth=0):
+    """Possible signs of an arithmetic term, as a subset of '<=>' relative to zero. Sound for finite values (NaN /
+    infinities are excluded by the assumptions recorded with the rules that use it): constants, float images of
+    unsigned integers, max / min, sums and differences. Anything else may have any sign."""
+    ANY = frozenset("<=>")
+    if depth > 12 or not isinstance(t, tuple) or not t:
+        return ANY
+    if t in NONNEG_TERMS:
+        return frozenset("=>")
+    if t[0] in ("f", "i"):
+        return frozenset("=" if t[1] == 0 else (">" if t[1] > 0 else "<"))
+    if t[0] != "app":
+        return ANY
+    op, args = t[1], t[2]
+    if op in ("max", "min") and len(args) == 2:
+        a, b = sign_of(args[0], depth + 1), sign_of(args[1], depth + 1)
+        if op == "max":
+            lo = set()
+            # max is at least each argument: it can be negative only if both can, zero only if neither is surely positive
+            if "<" in a and "<" in b:
+                lo.add("<")
+            if ("=" in a or "<" in a) and ("=" in b or "<" in b) and ("=" in a or "=" in b):
+                lo.add("=")
+            if ">" in a or ">" in b:
+                lo.add(">")
+            return frozenset(lo) or ANY
+        hi = set()
+        if ">" in a and ">" in b:
+            hi.add(">")
+        if ("=" in a or ">" in a) and ("=" in b or ">" in b) and ("=" in a or "=" in b):
+            hi.add("=")
+        if "<" in a or "<" in b:
+            hi.add("<")
+        return frozenset(hi) or ANY
+    if op in ("Add", "AddUnchecked", "Sub", "SubUnchecked") and len(args) == 2:
+        a, b = sign_of(args[0], depth + 1), sign_of(args[1], depth + 1)
+        if op.startswith("Sub"):
+            b = frozenset({"<": ">", ">": "<", "=": "="}[x] for x in b)
+        if a == frozenset("="):
+            return b
+        if b == frozenset("="):
+            return a
+        if a <= frozenset("=>") and b <= frozenset("=>"):
+            return frozenset("=>") if ("=" in a and "=" in b) else frozenset(">")
+        if a <= frozenset("<=") and b <= frozenset("<="):
+            return frozenset("<=") if ("=" in a and "=" in b) else frozenset("<")
+        return ANY
+    if op in ("Mul", "MulUnchecked") and len(args) == 2:
+        a, b = sign_of(args[0], depth + 1), sign_of(args[1], depth + 1)
+        if a == frozenset("=") or b == frozenset("="):
+            return frozenset("=")
+        return ANY
+    if op == "Neg" and len(args) == 1:
+        return frozenset({"<": ">", ">": "<", "=": "="}[x] for x in sign_of(args[0], depth + 1))
+    return ANY
+
+
 def _lattice_fact(a, b):
     """Orderings of (a, b) that the lattice meaning of max / min leaves possible: max(x, c) >= c and min(x, c) <= c
     for a constant c (a float constant is not NaN, and f64::max / min return the other operand for a NaN one)."""
@@ -1132,7 +1195,12 @@ def _lattice_fact(a, b):
         ok &= frozenset(">=") if a[1] == "max" else frozenset("<=")
     if isinstance(b, tuple) and b and b[0] == "app" and b[1] in ("max", "min") and is_const(a) and a in b[2]:
         ok &= frozenset("<=") if b[1] == "max" else frozenset(">=")
-    return ok
+    # comparison with the constant zero: the sign analysis
+    if is_const(b) and b[1] == 0:
+        ok &= sign_of(a)
+    if is_const(a) and a[1] == 0:
+        ok &= frozenset({"<": ">", ">": "<", "=": "="}[x] for x in sign_of(b))
+    return ok or frozenset("<=>")
 
 
 def closure_def(v):
